@@ -232,7 +232,7 @@ fn default_consist(r: &mut Rng, nmax: usize) -> (Consist, String) {
     (c, shape)
 }
 
-fn chain_network(lens: &[f64], grade: f64) -> Vec<Link> {
+pub fn chain_network(lens: &[f64], grade: f64) -> Vec<Link> {
     let mut v = vec![Link::default()];
     let n = lens.len();
     let mut elev0 = 100.0;
